@@ -1,8 +1,9 @@
 SPECIFICATION Spec
 CONSTANTS
-  Component = "planning"
+  Component = "dev_init"
   Precisions = {4}
   NMixed = 0
+  NShards = 1
   DEV_XmlDropsHorn = FALSE
   DEV_ReaderStopsAtFirstUnset = TRUE
 INVARIANT LawImplConforms
